@@ -27,6 +27,10 @@ pub enum Family {
     C11X,
     C12,
     C13,
+    /// C13 / C05 by enumeration: every sequence of length 1..4 (5 in part) of external events - start / cancel an
+    /// operation of one of three senders, peer acknowledgement, write back-pressure on / off - against the
+    /// waiter queue, for windows of 1 and 2 and four sender kits
+    C13X,
     C14,
     C15,
     C16,
@@ -61,6 +65,7 @@ impl Family {
             "C11X" => Family::C11X,
             "C12" => Family::C12,
             "C13" => Family::C13,
+            "C13X" => Family::C13X,
             "C14" => Family::C14,
             "C15" => Family::C15,
             "C16" => Family::C16,
@@ -90,6 +95,7 @@ impl Family {
             Family::C11X => "C11X",
             Family::C12 => "C12",
             Family::C13 => "C13",
+            Family::C13X => "C13X",
             Family::C14 => "C14",
             Family::C15 => "C15",
             Family::C16 => "C16",
@@ -119,6 +125,7 @@ pub const ALL_FAMILIES: &[Family] = &[
     Family::C11X,
     Family::C12,
     Family::C13,
+    Family::C13X,
     Family::C14,
     Family::C15,
     Family::C16,
@@ -147,6 +154,7 @@ pub fn generate(f: Family, ch: &mut Choices) -> Plan {
         Family::C11X => gen_c11x(ch),
         Family::C12 => gen_c12(ch),
         Family::C13 => gen_outbound(OutKind::C13, ch),
+        Family::C13X => gen_c13x(ch),
         Family::C14 => gen_outbound(OutKind::C14, ch),
         Family::C15 => gen_c15(ch),
         Family::C16 => gen_c16(ch),
@@ -231,6 +239,7 @@ pub fn base_plan(family: &'static str, role: Role, ch: &mut Choices) -> Plan {
         conns: 1,
         tags: Vec::new(),
         gate_order: Vec::new(),
+        ext_script: Vec::new(),
         immediate_mask: Vec::new(),
     }
 }
@@ -2599,6 +2608,92 @@ fn gen_c11x(ch: &mut Choices) -> Plan {
         plan.peer.script.push(st);
     }
     plan.tags.push(format!("enum:mode{mode}:{}", letters.iter().map(|l| l.to_string()).collect::<Vec<_>>().join(".")));
+    plan.ending = Ending::Settle;
+    plan
+}
+
+
+// ------------------------------------------------------------------------------------------
+// C13X: every short sequence of external events against the waiter queue
+
+pub const C13X_LETTERS: u64 = 15;
+pub const C13X_KITS: u64 = 4;
+pub const C13X_CONFIGS: u64 = 4 * 2 * C13X_KITS; // roles x windows x kits
+pub const C13X_MAX_LEN: u32 = 5;
+
+fn c13x_letter(l: u32) -> crate::plan::ExtStep {
+    use crate::plan::{ExtAct, ExtStep};
+    match l {
+        0..=2 => ExtStep { act: ExtAct::Go(l as usize), eager: false },
+        3..=5 => ExtStep { act: ExtAct::Cancel(l as usize - 3), eager: false },
+        6 => ExtStep { act: ExtAct::Ack, eager: false },
+        7 => ExtStep { act: ExtAct::StallOn, eager: false },
+        8 => ExtStep { act: ExtAct::StallOff, eager: false },
+        // right behind the previous letter, before any task has been polled: an operation started, or a
+        // waiting one dropped, between an event and the wake-up it causes
+        9..=11 => ExtStep { act: ExtAct::Go(l as usize - 9), eager: true },
+        _ => ExtStep { act: ExtAct::Cancel(l as usize - 12), eager: true },
+    }
+}
+
+/// number of points with sequences of length exactly `len`
+fn c13x_block(len: u32) -> u64 {
+    C13X_CONFIGS * C13X_LETTERS.pow(len)
+}
+
+pub fn c13x_total_le(len: u32) -> u64 {
+    (1..=len).map(c13x_block).sum()
+}
+
+pub fn c13x_total() -> u64 {
+    c13x_total_le(C13X_MAX_LEN)
+}
+
+/// Point `p` (< c13x_total()) -> leading draws [role, window, kit, len-1, letters...]; ordered by length,
+/// within a length the configuration varies fastest.
+pub fn c13x_point(mut p: u64) -> Vec<u32> {
+    let mut len = 1;
+    while p >= c13x_block(len) {
+        p -= c13x_block(len);
+        len += 1;
+    }
+    let cfg = p % C13X_CONFIGS;
+    let mut q = p / C13X_CONFIGS;
+    let mut out = vec![(cfg % 4) as u32, ((cfg / 4) % 2) as u32, (cfg / 8) as u32, len - 1];
+    for _ in 0..len {
+        out.push((q % C13X_LETTERS) as u32);
+        q /= C13X_LETTERS;
+    }
+    out
+}
+
+fn gen_c13x(ch: &mut Choices) -> Plan {
+    let role = C16X_ROLES[ch.choose(4) as usize];
+    let window = 1 + ch.choose(2) as u16;
+    let kit = ch.choose(C13X_KITS as u32);
+    let len = 1 + ch.choose(C13X_MAX_LEN);
+    let letters: Vec<u32> = (0..len).map(|_| ch.choose(C13X_LETTERS as u32)).collect();
+    let mut plan = base_plan("C13X", role, ch);
+    plan.p_ext = 0;
+    plan.cut = Cut::All;
+    match role {
+        Role::S5 => plan.peer.connect.props.push((33, PropVal::U16(window))),
+        Role::S3 | Role::C3 => plan.cfg.max_send = window,
+        Role::C5 => plan.peer.connack_props.push((33, PropVal::U16(window))),
+    }
+    // a stalled transport turns into write back-pressure as soon as one packet is buffered
+    plan.cfg.wr_hw = 16;
+    plan.cfg.wr_lw = 8;
+    let q1 = AppOp::PubQ1 { len: 2, pid: None };
+    plan.senders = match kit {
+        0 => vec![vec![q1.clone(), q1.clone()], vec![q1.clone(), q1.clone()], vec![q1.clone(), q1.clone()]],
+        1 => vec![vec![q1.clone(), q1.clone()], vec![AppOp::Ready, q1.clone()], vec![q1.clone(), AppOp::Ready]],
+        2 => vec![vec![AppOp::PubQ2 { len: 2, pid: None }, AppOp::Release, q1.clone()], vec![q1.clone(), q1.clone()], vec![AppOp::Ready, q1.clone()]],
+        _ => vec![vec![AppOp::PubQ1Nb { len: 2, pid: None }, q1.clone()], vec![q1.clone(), AppOp::PubQ0 { len: 2 }], vec![AppOp::Unpolled { what: 1 }, q1.clone()]],
+    };
+    plan.ext_script = letters.iter().map(|l| c13x_letter(*l)).collect();
+    plan.peer.auto_ack = true;
+    plan.tags.push(format!("enum:w{window}:kit{kit}:{}", letters.iter().map(|l| l.to_string()).collect::<Vec<_>>().join(".")));
     plan.ending = Ending::Settle;
     plan
 }
